@@ -56,16 +56,17 @@ ASSUME \A m \in 1..MaxN : LCM % m = 0
 
 VARIABLES
     data, k, maxIter,
-    pc,         \* "seed0" | "seed" | "assign" | "update" | "done"
+    pc,         \* "seed0" | "seed" | "assign" | "choose" | "update" | "done"
     j,          \* seeding: number of seeds drawn so far
     cur,        \* seeding: row number of the seed drawn last
     dmin,       \* seeding: d[i], squared distance to the nearest seed so far (-1 = max_value)
     y, size, cnum, cden, sums,
     distortion, \* best distortion so far (numerator over LCM^2; -1 = max_value)
     newdist,    \* distortion returned by the assignment step of this iteration
-    it          \* number of assignment steps made
+    it,         \* number of assignment steps made
+    tab, near   \* assignment step: distance table and per-row sets of nearest labels
 
-vars == <<data, k, maxIter, pc, j, cur, dmin, y, size, cnum, cden, sums, distortion, newdist, it>>
+vars == <<data, k, maxIter, pc, j, cur, dmin, y, size, cnum, cden, sums, distortion, newdist, it, tab, near>>
 
 N == Len(data)
 Point == [1..Dim -> Vals]
@@ -93,7 +94,7 @@ SeedFirst ==
     /\ \E i \in 1..N : cur' = i
     /\ j' = 1
     /\ pc' = "seed"
-    /\ UNCHANGED <<data, k, maxIter, dmin, y, size, cnum, cden, sums, distortion, newdist, it>>
+    /\ UNCHANGED <<data, k, maxIter, dmin, y, size, cnum, cden, sums, distortion, newdist, it, tab, near>>
 
 (* one round of `for j in 1..k`: refresh d / y against the last seed, then draw
    the next seed with probability proportional to d -- any row with d > 0 *)
@@ -103,7 +104,7 @@ SeedNext ==
     /\ y' = UpdY(cur, j - 1)
     /\ \E i \in 1..N : dmin'[i] > 0 /\ cur' = i
     /\ j' = j + 1
-    /\ UNCHANGED <<data, k, maxIter, pc, size, cnum, cden, sums, distortion, newdist, it>>
+    /\ UNCHANGED <<data, k, maxIter, pc, size, cnum, cden, sums, distortion, newdist, it, tab, near>>
 
 (* last refresh (label k-1), then size[] and the initial centroids = means *)
 SeedLast ==
@@ -114,24 +115,34 @@ SeedLast ==
     /\ cnum' = ClusterSums(data, y', k, Dim)
     /\ cden' = size'                      \* division by size[c], unguarded in the code
     /\ pc' = "assign"
-    /\ UNCHANGED <<data, k, maxIter, j, cur, sums, distortion, newdist, it>>
+    /\ UNCHANGED <<data, k, maxIter, j, cur, sums, distortion, newdist, it, tab, near>>
 
 (* --------------------------------------------------------- Lloyd iterations *)
-(* bbd.clustering(): y, size, sums, dist -- by contract *)
-Assign ==
+(* bbd.clustering(), first half: the squared distances of every row to every
+   centroid (numerators over cden^2) and, per row, the labels of its nearest
+   centroids.  They are kept in state variables (tab, near) because TLC would
+   re-evaluate a LET definition at every use inside the quantifier of Assign. *)
+Measure ==
     /\ pc = "assign"
-    /\ LET T == SqTable(data, cnum, cden)
-           cd2 == Sq(cden)
-       IN  /\ \E yy \in [1..N -> 0..(k - 1)] :
-                 /\ \A i \in 1..N : IsNearest(T[i], cd2, yy[i] + 1)
-                 /\ y' = yy
-           /\ newdist' = SumTo([i \in 1..N |->
-                                  T[i][y'[i] + 1] * (LCM \div cden[y'[i] + 1]) * (LCM \div cden[y'[i] + 1])], N)
+    /\ tab' = SqTable(data, cnum, cden)
+    /\ near' = [i \in 1..N |-> { c \in 0..(k - 1) : IsNearest(tab'[i], Sq(cden), c + 1) }]
+    /\ pc' = "choose"
+    /\ UNCHANGED <<data, k, maxIter, j, cur, dmin, y, size, cnum, cden, sums, distortion, newdist, it>>
+
+(* bbd.clustering(), second half -- by contract: every row goes to ONE OF its
+   nearest centroids (any), size / sums / dist are those induced *)
+Assign ==
+    /\ pc = "choose"
+    /\ \E yy \in [1..N -> 0..(k - 1)] :
+          /\ \A i \in 1..N : yy[i] \in near[i]
+          /\ y' = yy
+    /\ newdist' = SumTo([i \in 1..N |->
+                           tab[i][y'[i] + 1] * (LCM \div cden[y'[i] + 1]) * (LCM \div cden[y'[i] + 1])], N)
     /\ size' = [c \in 1..k |-> CountOf(y', c - 1)]
     /\ sums' = ClusterSums(data, y', k, Dim)
     /\ it' = it + 1
     /\ pc' = "update"
-    /\ UNCHANGED <<data, k, maxIter, j, cur, dmin, cnum, cden, distortion>>
+    /\ UNCHANGED <<data, k, maxIter, j, cur, dmin, cnum, cden, distortion, tab, near>>
 
 (* centroids of the clusters that have members are recomputed BEFORE the stop
    test, so the returned centroids always belong to the returned y *)
@@ -144,7 +155,7 @@ UpdateStop ==
     /\ distortion # -1 /\ distortion <= newdist
     /\ cnum' = NewNum /\ cden' = NewDen
     /\ pc' = "done"
-    /\ UNCHANGED <<data, k, maxIter, j, cur, dmin, y, size, sums, distortion, newdist, it>>
+    /\ UNCHANGED <<data, k, maxIter, j, cur, dmin, y, size, sums, distortion, newdist, it, tab, near>>
 
 (* `else { distortion = dist }`, next round of the for loop -- or its end *)
 UpdateGo ==
@@ -153,7 +164,7 @@ UpdateGo ==
     /\ cnum' = NewNum /\ cden' = NewDen
     /\ distortion' = newdist
     /\ pc' = IF it = maxIter THEN "done" ELSE "assign"
-    /\ UNCHANGED <<data, k, maxIter, j, cur, dmin, y, size, sums, newdist, it>>
+    /\ UNCHANGED <<data, k, maxIter, j, cur, dmin, y, size, sums, newdist, it, tab, near>>
 
 (* -------------------------------------------------------------------- spec *)
 Init ==
@@ -167,8 +178,9 @@ Init ==
     /\ y = [i \in 1..Len(data) |-> 0]
     /\ size = <<>> /\ cnum = <<>> /\ cden = <<>> /\ sums = <<>>
     /\ distortion = -1 /\ newdist = -1 /\ it = 0
+    /\ tab = <<>> /\ near = <<>>
 
-Next == SeedFirst \/ SeedNext \/ SeedLast \/ Assign \/ UpdateStop \/ UpdateGo
+Next == SeedFirst \/ SeedNext \/ SeedLast \/ Measure \/ Assign \/ UpdateStop \/ UpdateGo
 Spec == Init /\ [][Next]_vars
 
 (* -------------------------------------------------------------- invariants *)
@@ -189,7 +201,7 @@ FitCorrect ==
         \* the recorded (fixed-point) form of the clause accepts the exact state
         /\ FitFx(N, Dim, k, y, size, [c \in 1..k |-> [d \in 1..Dim |-> Fx12(cnum[c][d], cden[c])]], 4096, cs)
 
-SeedingSound == pc \in {"assign", "update", "done"} => \A c \in 1..k : cden[c] > 0
+SeedingSound == pc \in {"assign", "choose", "update", "done"} => \A c \in 1..k : cden[c] > 0
 
 Monotone == (pc = "update" /\ distortion # -1) => newdist <= distortion
 
